@@ -25,17 +25,27 @@ cache in force at the start of the block (`saved_dist_cache_`) and the recoder p
                        the next call's first command): `Merged` (BV/Lemmas/CbrMerge.lean) records any sequence of calls —
                        per call any hasher type / state, the ring-buffer contents of that moment, the carried distance
                        cache and `last_insert_len` — and the closed command array of the whole meta-block satisfies
-                       `cmdOK`, `lockstep`, `CmdsWF` and `PayloadOK`.  NOT covered: `extend_last_command`, which
-                       `encode_data` runs between two merged calls when the previous call ended exactly on a copy
-                       (`last_insert_len = 0`) and which lengthens that copy if the new input continues it; `Merged`
-                       describes the call sequences in which it changes nothing.
+                       `cmdOK`, `lockstep`, `CmdsWF` and `PayloadOK`.  `extend_last_command` (run by `encode_data`
+                       between two merged calls when the previous call ended exactly on a copy, `last_insert_len = 0`;
+                       it lengthens that copy while the new input continues it and recomputes `cmd_prefix_`) is the
+                       constructor `Merged.extend`: its hypotheses are decoder-level — the last command is executed as
+                       an LZ77 copy at distance `D` (`LastCopy`), copying `n` more bytes at that distance from the
+                       output so far reproduces the next `n` input bytes, the new command has the same insert length
+                       and distance fields and copy length / copy length code `n` larger, and is `GoodCmd` — and
+                       `decStep_extend` shows the decoder then executes the longer command.  That the real function's
+                       tests (`distance_code < 16 || distance_code − 15 == dist_cache_[0]`, `dist_cache_[0] ≤
+                       max_distance`, ring-buffer byte comparisons) imply these hypotheses is NOT derived here (model of
+                       the function: w-e2e's `BV.E2E.extendLastCommand`, tied by engine `e2e`; its FIELD part is
+                       derived: `merged_extend_of_e2e` via `extendLastCommand_fields`).
 
 Still assumed / out of scope: quality 10/11 (Zopfli model, C01zzzzy), quality 0/1 (no commands: fragment writers),
-NPOSTFIX/NDIRECT ≠ 0 (FONT mode), the 3 GiB position wrap, `extend_last_command`.
+NPOSTFIX/NDIRECT ≠ 0 (FONT mode), the 3 GiB position wrap, the link from `extend_last_command`'s tests to
+`Merged.extend`'s hypotheses.
 -/
 import BV.Props.C01Chain
 import BV.Props.C14
 import BV.Lemmas.CbrMerge
+import BV.Lemmas.ExtendFields
 
 namespace BV.Props.C14Chain
 open BV.Hasher BV.MatchFinder BV.Recoder BV.PrefixArith BV.MetaBlock BV.Cbr BV.Props.C01Chain BV.Props.C14
@@ -283,6 +293,24 @@ theorem recode_replays_input_q29_merged (wo : WordOracle) (p : Params) (large : 
   have hE : EnvOK e wo (windowSize e.lgwin) := ⟨rfl, by rw [hlg, windowSize_eq]; omega, horacle⟩
   exact recode_replays_input wo e i0 i1 _ (cache0.take 4) hist ir nbe' hE (by omega) (cacheOk_take4 cache0 hc0 hcl0)
     (by rw [hdp]; exact hwf) hlog (by unfold PayloadOK; rw [hdp, hlg, windowSize_eq]; exact hrep)
+
+/-- **`merged_extend_of_e2e`** — `Merged.extend` with its FIELD hypotheses discharged against the tied model of
+`extend_last_command` (w-e2e's `BV.E2E.extendLastCommand`, engine `e2e`): whatever the function returns for the last
+command `c` — `(c', n)` —, the record of the merged meta-block continues with `c'` in place of `c`, `n` bytes further,
+provided the decoder-level facts hold: `c` was executed as an LZ77 copy at distance `D` (`LastCopy`), copying `n` more
+bytes at that distance reproduces the next `n` input bytes, `c'` is `GoodCmd`; and the 25-bit length field does not carry
+(`copy_len + n < 2^25`, delta `< 64`). -/
+theorem merged_extend_of_e2e (wo : WordOracle) (p : Params) (large : Bool) (hist M : Bytes) (cache0 : List Int)
+    (cmds : List Cmd) (c c' : Cmd) (cur : Nat) (cache : List Int) (n D : Nat)
+    (hm : Merged (SlotOK wo) wo p (GoodCmd large) hist M cache0 (cmds ++ [c]) cur cache 0 cur)
+    (e : BV.E2E.EParams) (data : ByteArray) (mask lp : Nat) (dc0 : Int) (bytes wlp : Nat)
+    (hx : BV.E2E.extendLastCommand e data mask lp dc0 c bytes wlp = some (c', n))
+    (hd : c.copyLenField >>> 25 < 64) (hn : copyLen c + n < 33554432) (hle : cur + n ≤ M.length)
+    (hg : GoodCmd large c') (hlast : LastCopy wo p hist M cache0 cmds c D)
+    (hcopy : copyBytes n D (hist ++ M.take cur) = hist ++ M.take (cur + n)) :
+    Merged (SlotOK wo) wo p (GoodCmd large) hist M cache0 (cmds ++ [c']) (cur + n) cache 0 (cur + n) := by
+  obtain ⟨a1, a2, a3, a4, a5⟩ := BV.E2E.extendLastCommand_fields e data mask lp dc0 c c' bytes wlp n hx hd hn
+  exact Merged.extend cmds c c' cur cache n D hm hle a1 a2 a3 a4 a5 hg hlast hcopy
 
 /-! ### non-vacuity: the run of `BV.Cbr.Example` (8 literals, the static-dictionary word "time", 20 closing literals),
 logged by `LogMetaBlock` — every hypothesis of `recode_replays_input_q29_basic` is met by concrete values, and its
